@@ -10,7 +10,8 @@ class WildcardBinspec(object):
         
         self.specs = []
         for s in specs:
-            self.specs.append((s[0], s[1]))
+            # Bits of the value under wildcard (mask=0) positions are don't-cares
+            self.specs.append((s[0] & s[1], s[1]))
         
     def equals(self, oth):
         
